@@ -17,14 +17,6 @@ pub mod abi;
 pub mod collections;
 pub mod ledger;
 pub mod schemapairs;
-#[cfg(not(kani))]
-pub mod native_misc;
-#[cfg(not(kani))]
-pub mod native_abi;
-#[cfg(not(kani))]
-pub mod native_schemacodec;
-#[cfg(all(not(kani), feature = "xnative"))]
-pub mod native_crypto;
 
 #[macro_use]
 mod reg;
@@ -40,64 +32,7 @@ pub fn registry() -> Vec<(&'static str, fn(&mut crate::src::ReplaySrc))> {
     v
 }
 
-// Native-only bounded harnesses (small-scope enumeration; CBMC cannot handle the heap-heavy schema code).
-// name, body, properties, functions, bound  -- parsed by tools/native_run.py from the `n(` lines below.
+// Native-only bounded harnesses (small-scope enumeration; see DESIGN.md section 5). Everything native-only lives in
+// src/native_*.rs and is compiled out under Kani, so editing it never changes what Kani verifies.
 #[cfg(not(kani))]
-include!("native_family.rs");
-#[cfg(not(kani))]
-pub fn native_registry() -> Vec<(&'static str, fn(&mut crate::src::EnumSrc))> {
-    let mut v = native_family_registry();
-    v.extend(native_misc_registry());
-    v
-}
-#[cfg(not(kani))]
-fn native_misc_registry() -> Vec<(&'static str, fn(&mut crate::src::EnumSrc))> {
-    let mut v = native_misc_registry0();
-    #[cfg(feature = "xnative")]
-    v.extend(vec![
-        // n(nencrypted_passwords, "C14,C01", "savefile::save_encrypted_file; savefile::load_encrypted_file; CryptoWriter::new/write/flush/drop; CryptoReader::new/read (real ring AES-256-GCM, real bzip2)", "small-scope documents (payload 0..140 kB, i.e. one and two crypto chunks) x 6 passwords for saving x 6 for loading");
-        ("nencrypted_passwords", (|s: &mut crate::src::EnumSrc| crate::native_crypto::encrypted_passwords(s)) as fn(&mut crate::src::EnumSrc)),
-        // n(nencrypted_tamper, "C14,C07", "savefile::load_encrypted_file; CryptoReader::new; CryptoReader::read (real ring)", "small-scope documents; every byte offset for files <= 160 bytes, else offsets around the nonce, size headers, chunk boundary and end; 3 bit patterns; truncation at the same offsets");
-        ("nencrypted_tamper", (|s: &mut crate::src::EnumSrc| crate::native_crypto::encrypted_tamper(s)) as fn(&mut crate::src::EnumSrc)),
-        // n(ncompressed_container, "C01,C07", "savefile::save_compressed; Serializer::save_impl (bzip2 branch); Deserializer::load_impl (bzip2 branch)", "small-scope documents; every cut for files <= 160 bytes, else 12 cut points");
-        ("ncompressed_container", (|s: &mut crate::src::EnumSrc| crate::native_crypto::compressed_container(s)) as fn(&mut crate::src::EnumSrc)),
-    ]);
-    v
-}
-#[cfg(not(kani))]
-fn native_misc_registry0() -> Vec<(&'static str, fn(&mut crate::src::EnumSrc))> {
-    vec![
-        // n(nschema_library, "C12", "hand-written WithSchema impls: Vec, tuples, Option, arrays, Box, String, BTreeMap, BTreeSet, VecDeque, Duration", "small-scope values");
-        ("nschema_library", (|s: &mut crate::src::EnumSrc| crate::schemaread::schema_library(s)) as fn(&mut crate::src::EnumSrc)),
-        // n(nschema_result, "C12", "WithSchema for Result<T,R> (get_result_schema); Serialize for Result", "small-scope values");
-        ("nschema_result", (|s: &mut crate::src::EnumSrc| crate::schemaread::schema_result(s)) as fn(&mut crate::src::EnumSrc)),
-        // n(nschema_hashmap_guard, "C12", "WithSchema for HashMap<K,V> (recursion guard)", "small-scope values");
-        ("nschema_hashmap_guard", (|s: &mut crate::src::EnumSrc| crate::schemaread::schema_hashmap_guard(s)) as fn(&mut crate::src::EnumSrc)),
-        // n(nschema_socketaddr, "C12", "WithSchema for SocketAddr; Serialize for SocketAddr", "small-scope values");
-        ("nschema_socketaddr", (|s: &mut crate::src::EnumSrc| crate::schemaread::schema_socketaddr(s)) as fn(&mut crate::src::EnumSrc)),
-        // n(nschema_evermid_old, "C12", "derive WithSchema: variants filtered by version (EVerMid at version 1)", "all values representable at version 1");
-        ("nschema_evermid_old", (|s: &mut crate::src::EnumSrc| crate::schemaread::schema_evermid_old(s)) as fn(&mut crate::src::EnumSrc)),
-        // n(nfault_library, "C08", "Serializer::save_impl; Deserializer::load_impl; savefile::save; savefile::load; Serialize/Deserialize for String, Vec<T>, Option, tuples, BTreeMap, Box<[T]>", "6 container shapes, lengths <= 40; every write-failure offset, flush failure, short writes 1..3 with Interrupted patterns, every read-failure offset, chunked reads 1..4");
-        ("nfault_library", (|s: &mut crate::src::EnumSrc| crate::native_misc::fault_library(s)) as fn(&mut crate::src::EnumSrc)),
-        // n(ntrunc_library, "C07", "Deserializer::read_string; Deserializer::read_usize; regular_deserialize_vec; Deserialize for Vec<T> (bulk path); Deserializer::load_impl", "String/Vec<u8>/Vec<u32>/tuple/BTreeMap with lengths 0..70000; every cut for files <= 96 bytes, else cuts around both ends, every power of two, 4096/8192 from the end");
-        ("ntrunc_library", (|s: &mut crate::src::EnumSrc| crate::native_misc::trunc_library(s)) as fn(&mut crate::src::EnumSrc)),
-        // n(nintro_library, "C17", "Introspect::introspect_len; Introspect::introspect_child for the hand-written impls (collections, maps, sets, Option, Result, Box, Rc, Arc, RefCell, Mutex, RwLock, tuples, arrays, Schema, BitVec, ArrayVec, SmallVec, IndexMap, IndexSet, Range)", "32 value shapes with <= 3 elements (incl. a poisoned std Mutex and a RefCell with a shared borrow outstanding), checked recursively to depth 3, indices 0..len, len..2len+1 and near usize::MAX");
-        ("nintro_library", (|s: &mut crate::src::EnumSrc| crate::native_misc::intro_library(s)) as fn(&mut crate::src::EnumSrc)),
-        // n(nintro_navigate, "C17", "Introspector::do_introspect; Introspector::impl_get_frames; IntrospectionResult::total_index; IntrospectionResult::total_len", "3 objects, sequences of <= 3 commands (first 2,000,000 combinations in enumeration order) (Nothing, Up, SelectNth, ExpandElement) with depths/indices from {0,1,2,5,usize::MAX}, with and without child limit");
-        ("nintro_navigate", (|s: &mut crate::src::EnumSrc| crate::native_misc::intro_navigate(s)) as fn(&mut crate::src::EnumSrc)),
-        // n(nabi_pairs, "C09,C10,C11", "AbiConnection::new_internal; AbiConnection::analyze_and_create; arg_layout_compatible; abi_entry_light; savefile_abi_exportable output (caller and callee trampolines, closure wrappers, boxed-closure wrappers); parse_return_value_impl", "one interface in versions 0 and 1 (struct argument and return type gaining a field), 4 caller/implementation combinations x 7 methods x small-scope argument values");
-        ("nabi_pairs", (|s: &mut crate::src::EnumSrc| crate::native_abi::abi_pairs(s)) as fn(&mut crate::src::EnumSrc)),
-        // n(nabi_wide, "C09,C11", "AbiConnection::analyze_and_create (by-reference mask); savefile_abi_exportable output for a 40-argument method", "one 40-argument method; one argument and one string length vary");
-        ("nabi_wide", (|s: &mut crate::src::EnumSrc| crate::native_abi::abi_wide(s)) as fn(&mut crate::src::EnumSrc)),
-        // n(nabi_incompatible, "C10", "AbiConnection::analyze_and_create (argument count, argument type, return type checks)", "3 incompatible signature pairs and the identical pair");
-        ("nabi_incompatible", (|s: &mut crate::src::EnumSrc| crate::native_abi::abi_incompatible(s)) as fn(&mut crate::src::EnumSrc)),
-        // n(nschemacodec, "C13", "Serialize for Schema/SchemaStruct/SchemaEnum/Variant/Field/SchemaArray/SchemaPrimitive; Deserialize for the same; new_schema_deserializer", "schema trees of depth <= 3 built from 8 leaf kinds, 12 inner kinds, <= 2 fields, <= 2 variants, layout annotations present/absent; library formats 0, 1, 2");
-        ("nschemacodec", (|s: &mut crate::src::EnumSrc| crate::native_schemacodec::schema_codec(s)) as fn(&mut crate::src::EnumSrc)),
-        // n(pairs_diff, "C05,C13,C15", "diff_schema; diff_enum; diff_fields; diff_primitive", "pairs of one-variant enums with <= 2 primitive fields; discriminants/widths from small domains");
-        ("pairs_diff", (|s: &mut crate::src::EnumSrc| crate::schemapairs::diff_pairs(s)) as fn(&mut crate::src::EnumSrc)),
-        // n(pairs_layout, "C11", "Schema::layout_compatible; SchemaEnum/Variant/Field::layout_compatible", "pairs of one-variant enums with <= 2 primitive fields, two offsets");
-        ("pairs_layout", (|s: &mut crate::src::EnumSrc| crate::schemapairs::layout_pairs(s)) as fn(&mut crate::src::EnumSrc)),
-        // n(ledger_compat, "C15", "AbiTraitDefinition::verify_backward_compatible; verify_compatible_with_old_impl; diff_schema", "one recorded method, <= 2 arguments of 3 primitive kinds, async flag, presence");
-        ("ledger_compat", (|s: &mut crate::src::EnumSrc| crate::ledger::ledger_compat(s)) as fn(&mut crate::src::EnumSrc)),
-    ]
-}
+include!("native_registry.rs");
